@@ -142,6 +142,44 @@ def inner_match(crate, body, enum):
     return best
 
 
+
+def _if_paths(e, acc=None):
+    """every path through the if / else-if chains of a statement list: ([(cond, polarity)], leaf or None); a missing
+    `else` is a path of its own (the value falls through)"""
+    acc = acc or []
+    e = peel(e)
+    if e.get("k") == "Block":
+        ifs = [st for st in e.get("stmts", []) if peel(st.get("e") or st).get("k") == "If"] if e.get("stmts") else []
+        tail = e.get("tail")
+        cands = [peel(st.get("e") or st) for st in ifs] + ([peel(tail)] if tail is not None and peel(tail).get("k") in ("If", "Block") else [])
+        if not cands:
+            yield acc, e
+            return
+        for c_ in cands:
+            yield from _if_paths(c_, acc)
+        return
+    if e.get("k") == "If":
+        yield from _if_paths(e["then"], acc + [(e["cond"], True)])
+        if e.get("else") is not None:
+            yield from _if_paths(e["else"], acc + [(e["cond"], False)])
+        else:
+            yield acc + [(e["cond"], False)], None
+        return
+    yield acc, e
+
+
+def _full_type_comparison(crate, cond):
+    """`a != b` / `a == b` / a.ne(&b) over two values of the checker's Type: returns 'ne' / 'eq' / None"""
+    for x in walk(cond):
+        if x.get("k") == "Binary" and str(x.get("op")) in ("Ne", "Eq", "!=", "=="):
+            tl, tr = strip_generics(crate.ty(peel_refs(x["l"])).replace("&", "").strip()), strip_generics(crate.ty(peel_refs(x["r"])).replace("&", "").strip())
+            if tl.endswith("typed_ast::Type") and tr.endswith("typed_ast::Type"):
+                return "ne" if str(x.get("op")) in ("Ne", "!=") else "eq"
+        if x.get("k") == "MethodCall" and x["name"] in ("ne", "eq") and (callee(x) or "").endswith(("PartialEq>::ne", "PartialEq>::eq")):
+            if strip_generics(crate.ty(peel_refs(x["recv"])).replace("&", "").strip()).endswith("typed_ast::Type"):
+                return x["name"]
+    return None
+
 def _branch_tails(body):
     """(value expression, enclosing branch block) for every branch of an if / else-if chain (or a plain block) that is
     the value of `body`"""
@@ -294,6 +332,35 @@ def rule_oblig(crate, select=None, min_rows=30):
                         "the exponent of `^` is neither constrained to Scalar (scalar base) nor evaluated as a constant (dimensionful base)")
             elif v in ("LogicalAnd", "LogicalOr"):
                 row("binop:%s:bool" % v, c.has_equal({"lhs"}, {"Bool"}) and c.has_equal({"rhs"}, {"Bool"}), a["pat"], "both operands ~ Bool", "an operand of `%s` is not constrained to Bool (pop_bool panics otherwise)" % v)
+    # per path: in the arm of == / != EVERY path through the if-chain relates the two operand types — by a constraint /
+    # the dtype assertion, by rejecting, or because a FULL comparison of the two types (`lhs_type != rhs_type`) has
+    # failed on the way.  A shallow test (same outermost constructor) lets `[1 m] == [1 s]` through unchecked.
+    for a in om["arms"]:
+        vs = pat_variants(a["pat"], OPADT) or set()
+        if not vs or not vs <= {"Equal", "NotEqual"}:
+            continue
+        n_paths = 0
+        bad = None
+        for conds, leaf in _if_paths(a["body"]):
+            n_paths += 1
+            if leaf is not None:
+                lc = Calls(crate, fe, leaf, tagmap)
+                if lc.has_equal({"lhs"}, {"rhs"}) or (closure_id is not None and lc.closure_called(closure_id)):
+                    continue
+                if any(y.get("k") == "Ret" for y in walk(leaf)):
+                    continue
+            ok_ = False
+            for cnd, pol in conds:
+                fc = _full_type_comparison(crate, cnd)
+                if (fc == "ne" and pol is False) or (fc == "eq" and pol is True):
+                    ok_ = True
+            if not ok_:
+                bad = (conds, leaf)
+        for v in sorted(vs):
+            if n_paths < 2:
+                continue
+            row("binop:%s:every-path-relates-operands" % v, bad is None, a["pat"], "each of the %d paths of the arm constrains the operand types, rejects, or has passed a full comparison of the two types" % n_paths,
+                "a path through the `%s` arm accepts the comparison although the operand types were neither constrained to be equal nor compared completely (only a shallow test such as `has_incompatible_constructor` guards it): `[1 m, 2 m] == [1 s, 2 s]` and `Pair<Length> == Pair<Time>` are accepted" % v)
     adt = crate.adts.get(OPADT)
     if adt:
         for v in adt["variants"]:
